@@ -49,6 +49,15 @@ def cases(tier, seed):
         for op in F.OPS:
             for mp in ((None,) if op in ("rolling_shift", "rolling_diff") else (1, 3)):
                 out.append({"op": op, "dtype": "float64", "N": 4, "G": 2, "W": 3, "min_periods": mp, "mask": {"kind": "none"}})
+    # the public methods GroupBy.rolling_*/shift/diff on directly constructed states (contiguous; chunked with per-chunk dictionaries)
+    for lay in ([None, [2, 2]] if tier == "quick" else [None, [2, 2], [1, 3], [2, 1, 1]]):
+        for op in F.OPS:
+            for mk in ("none", "bool_sym"):
+                c = {"op": op, "dtype": "float64", "N": 4, "G": 2, "W": 2, "min_periods": None if op in ("rolling_shift", "rolling_diff") else 1,
+                     "mask": {"kind": mk}, "via": "GroupBy"}
+                if lay:
+                    c["lengths"] = lay
+                out.append(c)
     for c in out:
         c["name"] = F.case_name(c)
     return out
